@@ -81,7 +81,7 @@ func c01Exec(input string) string {
 }
 
 func c01Gen(g *hx.Gen) {
-	n := g.Scale(4000, 150000)
+	n := g.Scale(10000, 150000)
 	for k := 0; k < n && !g.Done(); k++ {
 		alpha := sioAlphabets[g.Intn(len(sioAlphabets))]
 		typ := "s"
